@@ -20,6 +20,8 @@ import (
 
 var registry = map[string]func() Check{}
 
+const thoroughStateCap = 4000
+
 type SeqCheck struct {
 	Prop       string
 	Ideal      SeqModel // quick tier
@@ -121,6 +123,10 @@ func (c *SeqCheck) Run(e *Env) (*Outcome, *Evidence, error) {
 		total := len(states)
 		if !thorough && c.SampleQuick > 0 && gi == 0 {
 			states = sample(states, c.SampleQuick, rng)
+		}
+		if thorough && gi == 0 && len(states) > thoroughStateCap {
+			// keeps the thorough tier of one property within about half an hour
+			states = sample(states, thoroughStateCap, rng)
 		}
 		o, ds, err := e.driveStates(tag, states, false, 16)
 		if err != nil {
